@@ -87,6 +87,10 @@ extern int mpt_stream_poll(MPT_STRUCT(stream) *srm, int what, int timeout)
 			if (srm->_rd._state.data.msg >= 0) {
 				keep = what & POLLIN;
 			}
+			/* input the decoder has not consumed yet (stopped for buffer space) */
+			else if (srm->_rd._dec && srm->_rd._state.curr < srm->_rd.data.len) {
+				keep = what & POLLIN;
+			}
 		}
 		/* prepare input buffer */
 		else if ((srm->_rd.data.len == srm->_rd.data.max)
@@ -103,6 +107,9 @@ extern int mpt_stream_poll(MPT_STRUCT(stream) *srm, int what, int timeout)
 			fd[0].revents |= POLLHUP;
 			/* decoded message still waiting */
 			if (srm->_rd._state.data.msg >= 0) {
+				keep = what & POLLIN;
+			}
+			else if (srm->_rd._dec && srm->_rd._state.curr < srm->_rd.data.len) {
 				keep = what & POLLIN;
 			}
 		}
